@@ -47,6 +47,7 @@ type Child struct {
 	mu       sync.Mutex
 	exitErr  error
 	exited   bool
+	ownDir   bool // Dir was created by StartBinary and is removed by Stop
 }
 
 // BinaryOpts describes how to start the real bazel-remote executable.
@@ -78,7 +79,7 @@ func StartBinary(o BinaryOpts) (*Child, error) {
 		c.Pprof = fmt.Sprintf("127.0.0.1:%d", FreePort())
 		args = append(args, "--dir="+c.Dir, "--max_size=1", "--http_address="+c.HTTPAddr, "--grpc_address="+c.GRPCAddr, "--profile_address="+c.Pprof)
 	}
-	_ = ownDir
+	c.ownDir = ownDir
 	args = append(args, o.Args...)
 	logf, err := os.CreateTemp(ScratchBase(), "verif-binlog-")
 	if err != nil {
@@ -227,6 +228,9 @@ func (c *Child) Kill() {
 func (c *Child) Stop() {
 	c.Kill()
 	_ = os.Remove(c.LogPath)
+	if c.ownDir && c.Dir != "" {
+		_ = os.RemoveAll(c.Dir)
+	}
 }
 
 // Log returns the captured stdout+stderr.
